@@ -209,6 +209,11 @@ func (in *Interp) switchTo(g *goroutine) {
 
 // yield is a scheduling point placed before a synchronisation operation.
 func (in *Interp) yield(kind string) {
+	if in.skipYield {
+		// the communication of a select case: the scheduling point was the select itself
+		in.skipYield = false
+		return
+	}
 	if len(in.sched.gs) == 1 {
 		return
 	}
@@ -541,4 +546,90 @@ func (in *Interp) reportRace(a, b *accessRec, aWrite, bWrite bool) {
 		}
 	}
 	in.races = append(in.races, msg)
+}
+
+// ---- select ----
+
+// chanSelect executes an ssa.Select: the select statement is one scheduling point; the cases that can
+// proceed are determined, one of them is chosen (a decision when there are several, as the Go runtime
+// picks pseudo-randomly), and its communication is performed without a further scheduling point. Without
+// a ready case a non-blocking select takes its default branch (index -1) and a blocking one waits.
+func (in *Interp) chanSelect(fr *frame, instr *ssa.Select) value {
+	in.yield("select")
+	type st struct {
+		ch   *chanV
+		send bool
+		val  value
+		elem types.Type
+	}
+	var states []st
+	for _, s := range instr.States {
+		ch, _ := fr.get(s.Chan).(*chanV)
+		x := st{ch: ch, send: s.Dir == types.SendOnly, elem: s.Chan.Type().Underlying().(*types.Chan).Elem()}
+		if x.send {
+			x.val = fr.get(s.Send)
+		}
+		states = append(states, x)
+	}
+	ready := func() []int {
+		var r []int
+		for i, x := range states {
+			if x.ch == nil {
+				continue
+			}
+			if x.send {
+				if x.ch.closed || len(x.ch.recvq) > 0 || len(x.ch.buf) < x.ch.cap {
+					r = append(r, i)
+				}
+			} else if x.ch.closed || len(x.ch.buf) > 0 || len(x.ch.sendq) > 0 {
+				r = append(r, i)
+			}
+		}
+		return r
+	}
+	r := ready()
+	if len(r) == 0 && instr.Blocking {
+		in.block("select", func() bool { return len(ready()) > 0 })
+		r = ready()
+	}
+	// result tuple: (index, recvOk, one value per receive state)
+	res := tuple{in.tc.Const(64, ^uint64(0)), in.tc.Bool(false)}
+	for _, x := range states {
+		if !x.send {
+			res = append(res, in.zero(x.elem))
+		}
+	}
+	if len(r) == 0 {
+		return res
+	}
+	pick := r[0]
+	if len(r) > 1 {
+		ids := make([]uint64, len(r))
+		for i, x := range r {
+			ids[i] = uint64(x)
+		}
+		pick = int(in.decide("select", ids, nil))
+	}
+	res[0] = in.tc.Const(64, uint64(pick))
+	x := states[pick]
+	in.skipYield = true
+	if x.send {
+		in.chanSend(fr, x.ch, x.val)
+		in.skipYield = false
+		return res
+	}
+	t := in.chanRecv(fr, x.ch, true, x.elem).(tuple)
+	in.skipYield = false
+	res[1] = t[1]
+	slot := 2
+	for i, y := range states {
+		if y.send {
+			continue
+		}
+		if i == pick {
+			res[slot] = t[0]
+		}
+		slot++
+	}
+	return res
 }
